@@ -88,6 +88,8 @@ type VObs struct {
 	// C05 call shape / naming
 	RevChainLen int    `json:"revChainLen"`
 	RevZeroTime bool   `json:"revZeroTime"`
+	TsaRevCalled   bool `json:"tsaRevCalled"`
+	TsaRevZeroTime bool `json:"tsaRevZeroTime"`
 	RevIface    string `json:"revIface"`
 	RevNamed    int    `json:"revNamed"` // index (1-based, leaf = 1) of the certificate named in the revocation error, 0 if none
 	RevClass    string `json:"revClass"` // "ok" | "revoked" | "unknown" | "none"
@@ -420,6 +422,15 @@ func buildAndVerify(vc vcase) VObs {
 		}
 	}
 	fx.rev.mu.Unlock()
+	fx.tsaRev.mu.Lock()
+	obs.TsaRevZeroTime = true
+	for _, c := range fx.tsaRev.calls {
+		obs.TsaRevCalled = true
+		if !c.ZeroTime {
+			obs.TsaRevZeroTime = false
+		}
+	}
+	fx.tsaRev.mu.Unlock()
 	if fx.plugin != nil {
 		fx.plugin.mu.Lock()
 		if len(fx.plugin.requests) > 0 {
@@ -560,7 +571,16 @@ func newVFixture(in VIn, scheme signature.SigningScheme, vc vcase) *vfixture {
 		case "notFound":
 			fx.store.put(st, "s1", stdChainByKey("unrelated3").Root())
 		case "loadError":
-			// store absent => GetCertificates fails
+			// store absent => GetCertificates fails; in half of the cases another listed store of the same type loads and
+			// holds the trust anchor (before or after the failing one): the failure counts all the same
+			if vc.sigMut%2 == 1 {
+				fx.store.put(st, "s2", fx.chain.Root())
+				if vc.sigMut%4 == 1 {
+					fx.trustStores = append(fx.trustStores, string(st)+":s2")
+				} else {
+					fx.trustStores = append([]string{string(st) + ":s2"}, fx.trustStores...)
+				}
+			}
 		}
 	}
 
@@ -586,6 +606,7 @@ func newVFixture(in VIn, scheme signature.SigningScheme, vc vcase) *vfixture {
 			fx.rev.vec = revVecFor(len(fx.chain.Certs), vc.sigMut, revresult.ResultUnknown)
 		case "error":
 			fx.rev.err = errors.New("mock: validator failure")
+			fx.rev.errWithResults = vc.sigMut%2 == 1
 		}
 		if vc.capOrd%2 == 1 {
 			fx.revIface = "deprecated"
@@ -653,6 +674,9 @@ func newVFixture(in VIn, scheme signature.SigningScheme, vc vcase) *vfixture {
 			p.caps = []pf.Capability{ti, rv}
 		default:
 			panic("unknown plugin situation " + in.Plugin)
+		}
+		if vc.sigMut%3 == 2 {
+			p.processedExtra = []interface{}{[]interface{}{"nested", 1.0}, map[string]interface{}{"k": "v"}, 3.5, nil, true}
 		}
 		if in.Crit == "processed" {
 			p.processed = []string{critAttrKeys[vc.sigMut%len(critAttrKeys)]}
